@@ -173,7 +173,10 @@ class PipelineData(np.ndarray):
                 raise ValueError('Too many channels')
         elif channel_slice is not skip:
             if isinstance(channel_slice, list):
-                obj.channel = [obj.channel[s] for s in channel_slice]
+                # Follow numpy's rules for lists (integer positions or boolean
+                # mask) so that the labels match the rows that were selected.
+                i = np.arange(len(obj.channel))[channel_slice]
+                obj.channel = [obj.channel[j] for j in i]
             elif isinstance(channel_slice, (int, slice)):
                 obj.channel = obj.channel[channel_slice]
             else:
